@@ -327,7 +327,7 @@ def free_udp_ports(n):
     return ps
 
 
-async def feed_bridge(n_ports, events, raising=(), show=None, sentinel=None):
+async def feed_bridge(n_ports, events, raising=(), show=None, sentinel=None, serial=False):
     """events: [(port index, datagram bytes)] sent in order from one socket in paced bursts, then one sentinel per port as
     delivery barrier.  Returns (callback log [rendered device], loop-exception-handler calls, warnings).
     `raising`: indices of callback invocations (global count) on which the user's callback raises."""
@@ -350,7 +350,9 @@ async def feed_bridge(n_ports, events, raising=(), show=None, sentinel=None):
         try:
             for i, (p, d) in enumerate(events):
                 tx.sendto(d, ("127.0.0.1", ports[p]))
-                if i % 8 == 7: await asyncio.sleep(0)
+                if serial:                      # nothing else in flight: let the loop take this datagram before the next is sent
+                    for _ in range(4): await asyncio.sleep(0.001)
+                elif i % 8 == 7: await asyncio.sleep(0)
             for p in range(n_ports): tx.sendto(sentinel(p), ("127.0.0.1", ports[p]))
             for _ in range(3000):
                 if len(seen_sentinel) == n_ports: break
